@@ -140,7 +140,7 @@ func c10R1Shapes(sem *Sem, allowed []string, rng *rand.Rand) []Req {
 
 func TestVerif_C10(t *testing.T) {
 	r := newRun(t, "C10")
-	r.Rule("C02 configuration product x debug off/on x pre-set Vary values (none; unrelated names; names the middleware itself uses, such as Origin or one Access-Control-Request-* name, alone, combined or empty) x first requests of 20 shapes (no Origin; allowed / refused / malformed Origin; actual and non-CORS OPTIONS; preflights succeeding and failing at each step; PRNG hostile) " +
+	r.Rule("C02 configuration product and PRNG origin-rich configurations x debug off/on x pre-set Vary values (none; unrelated names; names the middleware itself uses, such as Origin or one Access-Control-Request-* name, alone, combined or empty) x first requests of 20 shapes (no Origin; allowed / refused / malformed Origin; actual and non-CORS OPTIONS; preflights succeeding and failing at each step; PRNG hostile) " +
 		"x second requests with the same method that agree (same value lists) on every header named in the first response's Vary and differ elsewhere: systematically every unlisted header among Origin/ACRM/ACRH/ACRPN/Referer/X-Unrelated/Authorization/Cookie replaced by every value of its pool, plus PRNG multi-header mutants. " +
 		"evaluation = one pair; the oracle demands identical status, headers and body (constant inner handler) and that pre-set Vary values survive; non-trivial = pair whose second request differs from the first in Origin, ACRM, ACRH or ACRPN (distinct by hash)")
 	r.Assume("a cache keys on the method and on the request headers named in Vary, comparing field values as lists; second requests keep Vary-listed headers exactly as they are in the first request")
@@ -161,12 +161,19 @@ func TestVerif_C10(t *testing.T) {
 		return
 	}
 	prod, _ := c02Product()
+	nProd := len(prod)
+	{
+		rng := rand.New(rand.NewPCG(r.Seed, 10))
+		for i := 0; i < pick(r, 200, 4000); i++ {
+			prod = append(prod, randRichValidCfg(rng))
+		}
+	}
 	cfgStride := pick(r, 9, 1)
 	nRand := pick(r, 6, 24)
 	presets := [][]string{nil, {"Accept-Encoding"}, {"Accept-Encoding", "Cookie, X-Pre"}, {"Origin"}, {"Access-Control-Request-Headers"}, {""},
 		{"Accept-Encoding, Origin"}, {"origin", "Access-Control-Request-Method"}, {"Access-Control-Request-Private-Network, Origin"}}
 	r.Parallel(len(prod), func(l *Local) {
-		if (l.Batch+int(r.Seed))%cfgStride != 0 {
+		if l.Batch < nProd && (l.Batch+int(r.Seed))%cfgStride != 0 {
 			return
 		}
 		c := prod[l.Batch]
@@ -181,7 +188,7 @@ func TestVerif_C10(t *testing.T) {
 		key := specKey(c)
 		rng := l.Rng
 		for d := 0; d < 2; d++ {
-			mw, err := cors.NewMiddleware(c.Config())
+			mw, err := newMiddlewareVia(c.Config(), l.Batch+d)
 			if err != nil {
 				return
 			}
